@@ -55,11 +55,17 @@ def main():
         if args[i] == '--tier': tier = args[i+1]; i += 2
         elif args[i] == '--only': only = args[i+1]; i += 2
         else: names.append(args[i]); i += 1
-    if names == ['all']:
-        names = [m['id'] for m in corpus.M if m['prop'] == cid]
-        names = sorted(set(names), key=names.index)
-    elif names == ['controls']:
-        names = [c for c in CONTROLS if M[c]['prop'] == cid]
+    out = []
+    for n in names:
+        if n == 'all':
+            out += [m['id'] for m in corpus.M if m['prop'] == cid]
+        elif n == 'controls':
+            out += [c for c in CONTROLS if M[c]['prop'] == cid]
+        elif n == 'seeds':
+            out += ['seeded:' + d for d in sorted(os.listdir('/verif/seeded')) if d.startswith(cid)]
+        else:
+            out.append(n)
+    names = sorted(set(out), key=out.index)
     res = {}
     for n in names:
         ov = overlay_for(n)
